@@ -270,6 +270,15 @@ G_Term(cls, m, n, b, seed, depth, mode) ==
             IN Op_Masked(sub(m0, n0, b, seed + 3), rm, cm)
        [] cls = "Perm" -> Op_Perm(G_PermT(n, b, seed))
        [] cls = "TransPerm" -> Op_TransPerm(IF n = 1 THEN 1 ELSE 2)
+       \* block structures over a REPEATED base: the blocks are equal matrices but independent components (samplers must not share their noise)
+       [] cls = "BlockDiagRepeat" -> Op_BlockDiag(Op_BatchRepeat(G_Term("Dense", n \div 2, n \div 2, b1 \o <<1>>, seed + 3, 0, 1), [i \in 1..Len(b1) |-> 1] \o <<2>>), -3)
+       [] cls = "BlockInterRepeat" -> Op_BlockInter(Op_BatchRepeat(G_Term("Dense", n \div 2, n \div 2, b1 \o <<1>>, seed + 3, 0, 1), [i \in 1..Len(b1) |-> 1] \o <<2>>), -3)
+       [] cls = "SumBatchRepeat" -> Op_SumBatch(Op_BatchRepeat(G_Term("Dense", n, n, b1 \o <<1>>, seed + 3, 0, 1), [i \in 1..Len(b1) |-> 1] \o <<3>>), -3)
+       [] cls = "KernelM" ->
+            LET x1 == G_Small(b1 \o <<m, 2>>, seed + 3)
+                x2 == IF mode = 1 THEN x1 ELSE G_Small(b2 \o <<n, 2>>, seed + 5)
+                c == IF mode = 1 THEN G_Pos(b, seed + 7) ELSE T_Fill(b, seed + 7, -2, 3)
+            IN Op_KernelM(x1, x2, c, Op_RootT(G_Small(<<2, 2>>, seed + 9)))
        [] cls = "Kernel" ->
             LET d == 1 + (seed % 2)
                 x1 == G_Small(b1 \o <<m, d>>, seed + 3)
@@ -282,11 +291,11 @@ G_AllClasses == <<"Dense", "User", "Diag", "ConstDiag", "Identity", "Zero", "Toe
                   "LowRankRoot", "Kron", "Kron3", "KronTri", "KronDiag", "KronAddedDiag", "SumKron", "AddedDiag",
                   "LRRAddedDiag", "Sum", "Sum3", "PsdSum", "Matmul", "Mul", "ConstMul", "BlockDiag", "BlockInter",
                   "SumBatch", "BatchRepeat", "Cat", "Interp", "Masked", "Perm", "TransPerm", "Kernel", "SumInterp", "MatmulTri", "InterpRootSameIdx">>
-G_SquareOnly == {"AddedDiagRootI", "AddedDiagKronI", "CholKronTriU", "LowRankHuge", "ConstMulI", "BlockDiagConstMulI", "InterpRootSameIdx", "MatmulTri", "LRRAddedDiagI", "AddedDiagI", "SumI", "Diag", "ConstDiag", "Identity", "Toeplitz", "Tri", "Chol", "CholU", "Root", "LowRankRoot", "Kron3", "KronTri",
+G_SquareOnly == {"BlockDiagRepeat", "BlockInterRepeat", "SumBatchRepeat", "AddedDiagRootI", "AddedDiagKronI", "CholKronTriU", "LowRankHuge", "ConstMulI", "BlockDiagConstMulI", "InterpRootSameIdx", "MatmulTri", "LRRAddedDiagI", "AddedDiagI", "SumI", "Diag", "ConstDiag", "Identity", "Toeplitz", "Tri", "Chol", "CholU", "Root", "LowRankRoot", "Kron3", "KronTri",
                  "KronDiag", "KronAddedDiag", "SumKron", "AddedDiag", "LRRAddedDiag", "PsdSum", "Mul", "BlockDiag",
                  "BlockInter", "Perm", "TransPerm"}
-G_LeafClasses == {"AddedDiagRootI", "AddedDiagKronI", "ConstMulBc", "CholKronTriU", "LowRankHuge", "ConstMulI", "BlockDiagConstMulI", "InterpRootSameIdx", "MixedDef", "AddedDiagRootConst", "AddedDiagBig", "DenseBig", "KronCholU", "BlockDiagCholU", "SumInterp", "MatmulTri", "LRRAddedDiagI", "AddedDiagI", "SumI", "Dense", "User", "Diag", "ConstDiag", "Identity", "Zero", "Toeplitz", "Chol", "CholU", "SumZ", "LowRankRoot", "KronTri",
+G_LeafClasses == {"BlockDiagRepeat", "BlockInterRepeat", "SumBatchRepeat", "KernelM", "AddedDiagRootI", "AddedDiagKronI", "ConstMulBc", "CholKronTriU", "LowRankHuge", "ConstMulI", "BlockDiagConstMulI", "InterpRootSameIdx", "MixedDef", "AddedDiagRootConst", "AddedDiagBig", "DenseBig", "KronCholU", "BlockDiagCholU", "SumInterp", "MatmulTri", "LRRAddedDiagI", "AddedDiagI", "SumI", "Dense", "User", "Diag", "ConstDiag", "Identity", "Zero", "Toeplitz", "Chol", "CholU", "SumZ", "LowRankRoot", "KronTri",
                   "KronDiag", "SumKron", "LRRAddedDiag", "Perm", "TransPerm", "Kernel"}
 \* classes that only exist for PSD arguments
-G_PsdOnly == {"CholKronTriU", "Chol", "CholU", "PsdSum", "Mul"}
+G_PsdOnly == {"BlockDiagRepeat", "BlockInterRepeat", "SumBatchRepeat", "CholKronTriU", "Chol", "CholU", "PsdSum", "Mul"}
 =============================================================================
